@@ -94,16 +94,18 @@ def run_property(prop, tier, seed, root):
     repo, interp, contracts = driver.load(root, cfg.get("modules"))
     by_name = {c.qualname: c for c in contracts}
     timeout_ms = 10000 if tier == "quick" else 60000
-    select = lambda c: prop in c.props
+    select = (lambda c: True) if cfg.get("select_all") else (lambda c: prop in c.props)
     selected = [c for c in contracts if select(c)]
 
     def relevant(cname, oname):
         """A contract shared by several properties may scope which of its obligations belong to each."""
+        if cfg.get("obligation_filter"):
+            return re.search(cfg["obligation_filter"], oname) is not None
         pr = by_name[cname].props
         if isinstance(pr, dict) and pr.get(prop):
             return re.search(pr[prop], oname) is not None
         return True
-    jobs = runner.run_contracts(interp, contracts, select, timeout_ms=timeout_ms, prefix=f"{prop}/")
+    jobs = runner.run_contracts(interp, contracts, select, timeout_ms=timeout_ms, prefix=f"{prop}/", ob_filter=cfg.get("obligation_filter"))
     pb = None
     findings, undecided, errors = [], [], []
     counts = {"obligations": 0, "discharged": 0, "refuted": 0, "undecided": 0}
@@ -188,8 +190,10 @@ def run_property(prop, tier, seed, root):
                         bounded["distinct_nontrivial"] += 1
                     if len(bounded["samples"]) < 3:
                         bounded["samples"].append({"function": c.qualname, "instance": inst.label, "inputs": r["inputs"], "expected": r.get("expected"), "observed": r.get("observed")})
-                    if r["status"] == "mismatch" and not relevant(c.qualname, r["mismatches"][0].split(":")[0]):
-                        r["status"] = "ok"
+                    if r["status"] == "mismatch":
+                        r["mismatches"] = [m for m in r["mismatches"] if relevant(c.qualname, "/" + m.split(":")[0])]
+                        if not r["mismatches"]:
+                            r["status"] = "ok"
                     if r["status"] == "mismatch":
                         bounded["mismatches"] += 1
                         bad_here += 1
